@@ -341,4 +341,6 @@ def run(ctx):
             why = "passes %s (want content and Count(content))" % texts
         fwd.ob(g.sig, g.text(cs[0])[:70], ok_c and ok_l, why, g.loc(cs[0]))
     from rules.common import rule_narrow_units
-    return [gate, fail, closed, unesc, fwd, rule_narrow_units(ctx, m, ["JSON.hpp", "JSONUtils.hpp", "StringUtils.hpp"])]
+    from rules.common import rule_sign_unit
+    return [gate, fail, closed, unesc, fwd, rule_narrow_units(ctx, m, ["JSON.hpp", "JSONUtils.hpp", "StringUtils.hpp"]),
+            rule_sign_unit(ctx, m, ["JSON.hpp", "JSONUtils.hpp", "Digit.hpp", "StringUtils.hpp", "Unicode.hpp"])]
